@@ -41,6 +41,19 @@ def replay(col, case):
         col.count(1)
         if not allclose(got, want, 1e-9):
             col.violation(label + "-wrong-value", dict(rep, expected=want.tolist(), observed=got.tolist()))
+    # smoothing_error twice with the SAME state vector object: the caller's x is not touched
+    try:
+        xs, xa = np.arange(1.0, n + 1) + 5.0, np.full(n, 5.0)
+        keep = xs.copy()
+        first = np.asarray(smoothing_error(xs, xa, A), dtype=float)
+        second = np.asarray(smoothing_error(xs, xa, A), dtype=float)
+        col.count(1)
+        want_s = np.array([fl(x) for x in case["smooth"]])
+        if not np.array_equal(xs, keep) or not allclose(first, want_s, 1e-9) or not allclose(second, want_s, 1e-9):
+            col.violation("smoothing_error-overwrites-x-or-differs-on-second-call", dict(rep, expected=want_s.tolist(),
+                                                                                         observed=[first.tolist(), second.tolist(), xs.tolist()]))
+    except Exception as ex:
+        col.violation("smoothing_error-raises-" + type(ex).__name__, dict(rep, observed=repr(ex)[:200]))
     # a single-precision (or integer-typed) Jacobian with double-precision covariances: the arithmetic stays in double precision
     for dtype in ("float32", "int64"):
         Kt = K.astype(dtype)
